@@ -1068,9 +1068,16 @@ impl World {
         }
         if let Some(r) = &self.reader {
             r.verif_fp(out);
+            if self.ep.is_done() {
+                // the shared queue outlives the connection object
+                r.verif_shared_fp(out);
+            }
         }
         if let Some(w) = &self.writer {
             out.push(w.verif_written_without_yield());
+            if self.ep.is_done() {
+                w.verif_shared_fp(out);
+            }
         }
     }
 
